@@ -51,6 +51,8 @@ fixed = [
       what='fixed: property=C04 506067a access.Serial refused to apply whenever it was the last rule applied to the branch: with two unserial worlds one was never served; D reported Ma, MKLbNMb |- c invalid (valid without the first premise)'),
  dict(property='C02', status='fixed', commit='506067a', key='C02.R6/serial_rule/worlds without successor [1, 2], worlds with sentence nodes [0, 1, 2], last history entry: serial-same-branch, world limit exceeded: False',
       what='fixed: property=C02 506067a same defect: the open branch was unsaturated and its model no countermodel'),
+ dict(property='C14', status='fixed', commit='60a4cb6', key='C14.R5/Predicate((-1, 0, 2),) with the spec never cached',
+      what='fixed: property=C14 60a4cb6 Predicate((-1,0,2)) / Predicated(*s.spec) / LexicalAbc(s.ident) for Identity and Existence sentences raised ValueError once ~1000 later items had evicted the system predicate spec from the construction cache'),
 ]
 def triage(prop, f):
     k = f['key']; d = f.get('detail', {})
